@@ -416,9 +416,31 @@ def _occurrences(node_or_list, name):
     return c
 
 
+def _c_typed(root):
+    """Locals with a declared C type (.pyx `cdef T x [= e]`): name -> type text.  Binding such a name is
+    an implicit CONVERSION to T, so it is a pure alias of its defining expression only when that expression
+    is an explicit cast to the same T."""
+    out = {}
+    if root is None:
+        return out
+    for n in ast.walk(root):
+        if isinstance(n, ast.AnnAssign) and isinstance(n.target, ast.Name):
+            a = n.annotation
+            out[n.target.id] = a.value if isinstance(a, ast.Constant) else ast.dump(a)
+    return out
+
+
+def _alias_of_typed(name, e, typed):
+    if name not in typed:
+        return True
+    return isinstance(e, ast.Call) and isinstance(e.func, ast.Name) and e.func.id == '__cy_cast__' and e.args \
+        and isinstance(e.args[0], ast.Constant) and e.args[0].value == typed[name]
+
+
 def _inline_block(stmts, fn_locals, param_names, root=None):
     """Forward-substitute single-definition pure temporaries within a block
     (recursively in nested blocks first)."""
+    typed = _c_typed(root)
     for s in stmts:
         for f in ('body', 'orelse', 'finalbody'):
             b = getattr(s, f, None)
@@ -449,6 +471,8 @@ def _inline_block(stmts, fn_locals, param_names, root=None):
                     continue
             e = s.value
             if not is_pure(e):
+                continue
+            if not _alias_of_typed(name, e, typed):
                 continue
             if isinstance(e, ast.GeneratorExp):
                 continue        # single-shot iterators must not be duplicated
